@@ -152,7 +152,10 @@ def _iter_fill(src, th):
                 S = 2 if not th else 3
                 if slow:
                     S = 1 if not th else 2
-                m.add(E.h_iter_ops(m, "iter", S, from_range=True))
+                # next_and_back with the inductive step available: the black-box sequence adds
+                # nothing in the quick tier
+                if th or not (wbs and m.bundle.mode("iter") == "next_and_back"):
+                    m.add(E.h_iter_ops(m, "iter", S, from_range=True))
             if d.n <= (6 if th else 4):
                 m.add(E.h_consume(m, "range"))
     return fill
@@ -189,7 +192,7 @@ def plan_C07(tier, seed):
         if d.family == "K3":
             i = sum(map(ord, d.name)) % 3
             return [["RGr", "RGa"], ["RGn"], ["RGt", "RGr"]][i]
-        return allb if d.family in ("K1", "K8") or d.repr in ("i8", "u64", "isize", "i16") else ["RGn", "RGt"]
+        return allb if d.family in ("K1", "K8") or d.repr in ("i8", "u64", "i128") else ["RGn", "RGt"]
     return _mods(decls, None, "C07", _iter_fill("range", th), per)
 
 
